@@ -194,10 +194,15 @@ fn dbern<T: Sc>(p: &Pts<T>, k: usize, t: T) -> P3<T> {
 fn pts_of<T: Sc>(v: &[T], npts: usize, dim: usize) -> Pts<T> { let mut p = [[T::zero(); 3]; 4]; for i in 0..npts { for c in 0..dim { p[i][c] = v[i * dim + c]; } } p }
 fn mat_of<T: Sc>(v: &[T], m: usize) -> M4<T> { let mut o = [[T::zero(); 4]; 4]; for i in 0..m { for j in 0..m { o[i][j] = v[i * m + j]; } } o }
 fn flat<T: Sc>(p: &Pts<T>) -> Vec<T> { p.iter().flatten().copied().collect() }
+/// fixed, non-symmetric, non-commuting integer matrices of the call-sequence family (upper-left NxN block used; for the
+/// (DIM+1)x(DIM+1) forms column DIM is the translation and row DIM is non-trivial and must be ignored)
+const SEQ_A: [[i64; 4]; 4] = [[2, -1, 3, 5], [1, 4, -2, -7], [-3, 5, 1, 2], [4, -6, 7, 3]];
+const SEQ_B: [[i64; 4]; 4] = [[1, 2, -1, 4], [0, -3, 4, 1], [5, 1, 2, -6], [-2, 3, -5, 1]];
+fn seq_mat<T: Sc>(m: &[[i64; 4]; 4]) -> M4<T> { let mut o = [[T::zero(); 4]; 4]; for i in 0..4 { for j in 0..4 { o[i][j] = cst::<T>(m[i][j]); } } o }
 
 // ---- identity families ---------------------------------------------------------------------------
 #[derive(Clone, Copy, PartialEq, Debug)]
-enum Id { Eval, Ends, Deriv, Split, Meet, Elev, Seg, Matrix, Rev, Flip, Redim, Unpack, MulLin, MulHom }
+enum Id { Eval, Ends, Deriv, Split, Meet, Elev, Seg, Matrix, Rev, Flip, Redim, Unpack, MulLin, MulHom, Seq }
 struct Fam<K: Kind> { id: Id, _k: PhantomData<K> }
 const AX: [&str; 3] = ["x", "y", "z"];
 
@@ -240,6 +245,11 @@ impl<K: Kind> Fam<K> {
                                (format!("Vec{}::From<{}>", K::K, n), "wrong-order"), (s(&format!("From<Vec{}>", K::K)), "wrong-order")],
             Id::MulLin => vec![(format!("row_major::Mat{} * {}", K::DIM, n), "not-equivariant"), (format!("column_major::Mat{} * {}", K::DIM, n), "not-equivariant")],
             Id::MulHom => vec![(format!("row_major::Mat{} * {}", K::DIM + 1, n), "not-equivariant"), (format!("column_major::Mat{} * {}", K::DIM + 1, n), "not-equivariant")],
+            Id::Seq => (0..4).map(|f| {
+                let m = K::DIM + (f >= 2) as usize;
+                let (la, lb) = if f % 2 == 1 { ("column_major", "row_major") } else { ("row_major", "column_major") };
+                (format!("{}: flip_x; {}::Mat{} *; reverse; {}::Mat{} *; flip_{}; evaluate+split", n, lb, m, la, m, AX[K::DIM - 1]), "sequence-broken")
+            }).collect(),
         }
     }
     /// the REAL vek code (possibly a composition), flat outputs
@@ -270,6 +280,22 @@ impl<K: Kind> Fam<K> {
             Id::Unpack => flat(&cv().unpack(form)),
             Id::MulLin => cv().mul_lin(&mat_of(&v[np * d + 1..], m), form == 1).ev(t).to_vec(),
             Id::MulHom => cv().mul_hom(&mat_of(&v[np * d + 1..], m), form == 1).ev(t).to_vec(),
+            Id::Seq => {
+                // one object carried through in-place and by-value calls: every call starts from the state the previous one left
+                let (hom, a_col) = (form >= 2, form % 2 == 1);
+                let (ma, mb) = (seq_mat::<T>(&SEQ_A), seq_mat::<T>(&SEQ_B));
+                let mut c = cv();
+                c = c.flip(0, true);
+                c = if hom { c.mul_hom(&mb, !a_col) } else { c.mul_lin(&mb, !a_col) };
+                c = c.rev(true);
+                c = if hom { c.mul_hom(&ma, a_col) } else { c.mul_lin(&ma, a_col) };
+                c = c.flip(d - 1, true);
+                let h = c.sp(t);
+                let mut o = c.ev(t).to_vec();
+                o.extend(h[0].pts()[k - 1]);
+                o.extend(h[1].pts()[0]);
+                o
+            }
         }
     }
     /// the reference, from the definitions, over arrays
@@ -293,12 +319,31 @@ impl<K: Kind> Fam<K> {
             Id::Unpack => flat(&p),
             Id::MulLin => { let mm = mat_of(&v[np * d + 1..], m); let b = bern(&p, k, t); let mut o = zp::<T>(); for i in 0..d { for j in 0..d { o[i] = o[i] + mm[i][j] * b[j]; } } o.to_vec() }
             Id::MulHom => { let mm = mat_of(&v[np * d + 1..], m); let b = bern(&p, k, t); let mut o = zp::<T>(); for i in 0..d { for j in 0..d { o[i] = o[i] + mm[i][j] * b[j]; } o[i] = o[i] + mm[i][d]; } o.to_vec() }
+            Id::Seq => {
+                let hom = form >= 2;
+                let (ma, mb) = (seq_mat::<T>(&SEQ_A), seq_mat::<T>(&SEQ_B));
+                let app = |mm: &M4<T>, x: &P3<T>| -> P3<T> { let mut o = zp::<T>(); for i in 0..d { for j in 0..d { o[i] = o[i] + mm[i][j] * x[j]; } if hom { o[i] = o[i] + mm[i][d]; } } o };
+                let mut pp = p;
+                for i in 0..k { pp[i][0] = -pp[i][0]; pp[i] = app(&mb, &pp[i]); }
+                let mut r = pp;
+                for i in 0..k { r[i] = pp[k - 1 - i]; }
+                for i in 0..k { r[i] = app(&ma, &r[i]); r[i][d - 1] = -r[i][d - 1]; }
+                let b = bern(&r, k, t);
+                [b, b, b].concat()
+            }
         }
     }
     fn to_x(&self, a: &[i64]) -> Vec<X> {
         let (np, nt, _) = self.shape();
         let lo = np * K::DIM;
         a.iter().enumerate().map(|(i, &c)| if i >= lo && i < lo + nt { q(c as i128 - 1, 2) } else { qi(c as i128) }).collect()
+    }
+    /// as `to_x`, every control coordinate multiplied by `sc` (parameters and matrix entries unchanged)
+    fn to_x_scaled(&self, a: &[i64], sc: X) -> Vec<X> {
+        let lo = self.shape().0 * K::DIM;
+        let mut v = self.to_x(a);
+        for c in v.iter_mut().take(lo) { *c = *c * sc; }
+        v
     }
     fn describe(&self, v: &[X]) -> Value {
         let (np, nt, m) = self.shape();
@@ -369,7 +414,8 @@ fn run_fam<K: Kind>(s: &Section, id: Id, degs: &DegLog) {
     }
     // --- lattice order: >= measured degree always; headroom within a point budget
     let base = measured.max(f.nominal());
-    let (emax, budget): (u32, u128) = if s.thorough() { (4, 3_000_000) } else { (2, 400_000) };
+    // (the call-sequence family is new: in the quick tier it gets one order of headroom only (enough to reach t > 1))
+    let (emax, budget): (u32, u128) = if s.thorough() { (4, 3_000_000) } else if id == Id::Seq { (1, 400_000) } else { (2, 400_000) };
     let mut order = base;
     while order < base + emax && lattice_count(n, order + 1) <= budget { order += 1; }
     let tc: [[AtomicU64; 5]; 2] = Default::default();
@@ -389,6 +435,31 @@ fn run_fam<K: Kind>(s: &Section, id: Id, degs: &DegLog) {
             }
         }
     });
+    // --- extreme-magnitude pass (exact): the same identities with every control coordinate multiplied by -2^40 and by 2^-60.
+    // The reference is recomputed on the scaled input, so nothing is assumed about homogeneity; what it exposes is code that
+    // compares a length / squared length / difference of its inputs with a fixed threshold (X::epsilon() = 2^-52) or that
+    // treats signs asymmetrically.  Quick: L(n, min(D0, 3)); thorough: L(n, D0) (D0 = degree floor), capped at 400 000 points.
+    let so = if s.thorough() { let mut o = base; while o > 2 && lattice_count(n, o) > 400_000 { o -= 1; } o } else { base.min(3) };
+    let scales: [(&str, X); 2] = [("control-points-times--2^40", qi(-(1i128 << 40))), ("control-points-times-2^-60", q(1, 1i128 << 60))];
+    for (cname, sc) in scales.iter() {
+        let cnt = AtomicU64::new(0);
+        par_lattice(n, so, |a| {
+            let v = f.to_x_scaled(a, *sc);
+            let w = a.iter().sum::<i64>() as u64;
+            let nz = f.nontrivial(a);
+            cnt.fetch_add(1, Relaxed);
+            for (i, (site, _)) in forms.iter().enumerate() {
+                s.eval(nz);
+                let want = f.refr::<X>(i, &v);
+                if let Some(got) = s.call(site, || f.describe(&v), || f.real::<X>(i, &v)) {
+                    if got != want { bad[i].add(w, json!({"input": f.describe(&v), "control_point_scale": cname, "got": jxs(&got), "want": jxs(&want)})); }
+                }
+            }
+        });
+        s.require_classes(&[cname]);
+        s.class_n(cname, cnt.load(Relaxed));
+    }
+    s.meta(&format!("scaled lattice {:?}", id), json!({"n": n, "D": so, "points_per_scale": lattice_count(n, so).to_string(), "scales": ["-2^40", "2^-60"]}));
     for (i, (site, class)) in forms.iter().enumerate() { bad[i].flush(s, site, class); }
     for j in 0..nt { for c in 0..5 { let name = format!("{}{}", if j == 0 { "t" } else { "u" }, TCLASS[c]); s.require_classes(&[&name]); s.class_n(&name, tc[j][c].load(Relaxed)); } }
     let info = json!({"n": n, "D": order, "points": lattice_count(n, order).to_string(), "measured_degree": measured, "hand_degree": f.nominal(), "forms": per_form});
@@ -417,7 +488,7 @@ fn tangent<K: Kind>(s: &Section) {
     let order = if s.thorough() { 8 } else { 6 };
     let site = format!("{}::normalized_tangent", K::NAME);
     s.require_classes(&["axis-aligned", "oblique"]);
-    let cnt: [AtomicU64; 4] = Default::default(); // axis, oblique, skipped irrational, skipped zero
+    let cnt: [AtomicU64; 6] = Default::default(); // axis, oblique, skipped irrational, skipped zero, scaled down, scaled up and negated
     let f = Fam::<K>::new(Id::Deriv);
     let bad = Smallest::new();
     par_lattice(n, order, |a| {
@@ -436,7 +507,23 @@ fn tangent<K: Kind>(s: &Section) {
             if got != want { bad.add(a.iter().sum::<i64>() as u64, json!({"input": f.describe(&v), "got": jxs(&got), "want": jxs(&want)})); }
             else if nzc > 1 && s.wants_sample() { s.sample(json!({"site": site, "input": f.describe(&v), "derivative": jxs(&dr), "norm": jx(X::R(r)), "normalized_tangent": jxs(&got)})); }
         }
+        // the unit tangent does not depend on the size of the curve and flips with its orientation: control points times
+        // 2^-54 (squared norm 2^-108 * n2, far below X::epsilon() = 2^-52) and times -2^40
+        for (si, (sc, neg)) in [(q(1, 1i128 << 54), false), (qi(-(1i128 << 40)), true)].into_iter().enumerate() {
+            let mut ps = p;
+            for row in ps.iter_mut() { for c in row.iter_mut() { *c = *c * sc; } }
+            let want_s = want.map(|c| if neg { -c } else { c });
+            s.eval(true);
+            cnt[4 + si].fetch_add(1, Relaxed);
+            let inp = || { let mut j = f.describe(&v); j["control_points_multiplied_by"] = jx(sc); j };
+            if let Some(got) = s.call(&site, inp, || <K::C<X> as Cv<X>>::build(&ps).nt(t)) {
+                if got != want_s { bad.add(a.iter().sum::<i64>() as u64, json!({"input": inp(), "got": jxs(&got), "want": jxs(&want_s)})); }
+            }
+        }
     });
+    s.require_classes(&["scaled-2^-54", "scaled--2^40"]);
+    s.class_n("scaled-2^-54", cnt[4].load(Relaxed));
+    s.class_n("scaled--2^40", cnt[5].load(Relaxed));
     bad.flush(s, &site, "not-unit-derivative");
     s.class_n("axis-aligned", cnt[0].load(Relaxed));
     s.class_n("oblique", cnt[1].load(Relaxed));
@@ -444,9 +531,18 @@ fn tangent<K: Kind>(s: &Section) {
 }
 
 // ---- circle approximation (floating point) ---------------------------------------------------------
-trait Fl: Sc + Into<f64> { const NAME: &'static str; fn frac(k: u32, n: u32) -> Self; fn close(got: Self, want: f64, scale: f64) -> bool; }
-impl Fl for f64 { const NAME: &'static str = "f64"; fn frac(k: u32, n: u32) -> f64 { k as f64 / n as f64 } fn close(g: f64, w: f64, sc: f64) -> bool { vx::fl::close64(g, w, sc) } }
-impl Fl for f32 { const NAME: &'static str = "f32"; fn frac(k: u32, n: u32) -> f32 { k as f32 / n as f32 } fn close(g: f32, w: f64, sc: f64) -> bool { vx::fl::close32(g, w, sc) } }
+trait Fl: Sc + Into<f64> {
+    const NAME: &'static str;
+    /// the extreme scales are 2^+-BIG (40 for f32, 400 for f64): squares of scaled values stay normal numbers, so the
+    /// unchanged code neither overflows nor underflows there
+    const BIG: i32;
+    fn frac(k: u32, n: u32) -> Self;
+    fn close(got: Self, want: f64, scale: f64) -> bool;
+    /// rounding conversion (exact for every value of the float alphabets except the deliberately inexact 0.1, 0.3, 0.7)
+    fn of(v: f64) -> Self;
+}
+impl Fl for f64 { const NAME: &'static str = "f64"; const BIG: i32 = 400; fn frac(k: u32, n: u32) -> f64 { k as f64 / n as f64 } fn close(g: f64, w: f64, sc: f64) -> bool { vx::fl::close64(g, w, sc) } fn of(v: f64) -> f64 { v } }
+impl Fl for f32 { const NAME: &'static str = "f32"; const BIG: i32 = 40; fn frac(k: u32, n: u32) -> f32 { k as f32 / n as f32 } fn close(g: f32, w: f64, sc: f64) -> bool { vx::fl::close32(g, w, sc) } fn of(v: f64) -> f32 { v as f32 } }
 
 fn circle<K: Kind, F: Fl>(s: &Section) {
     let steps: u32 = if s.thorough() { 16384 } else { 4096 };
@@ -506,6 +602,270 @@ fn circle<K: Kind, F: Fl>(s: &Section) {
     s.meta("tolerance", json!(TOL));
 }
 
+
+// ---- floating point instantiation: end points, halves, scaling law, forward error ------------------
+/// generic (no symmetry, no zero lane, negative and fractional values) control polygon; lattice value `a` of a coordinate
+/// adds FPERT[a] to it
+const FBASE: [[f64; 3]; 4] = [[1.0, -3.0, 2.5], [7.0, 0.75, -4.0], [-1.5, 6.0, 3.0], [4.0, -0.5, -7.0]];
+const FPERT: [f64; 4] = [0.0, 1.0, -2.0, 3.5];
+const TINY: f64 = 1.0 / 1048576.0; // 2^-20
+/// parameters: extrapolation on both sides, both ends, next to both ends, interior; all with <= 20 significant bits so that
+/// the exact reference stays inside i128 rationals
+const FT: [f64; 11] = [-0.5, 0.0, TINY, 0.25, 0.375, 0.5, 0.8125, 1.0 - TINY, 1.0, 1.5, 3.0];
+const FU: [f64; 5] = [-0.5, 0.0, 0.375, 1.0, 1.5];
+/// non-symmetric matrix with negative and fractional entries; column DIM = translation, row DIM non-trivial (must be ignored)
+const FMAT: [[f64; 4]; 4] = [[2.0, -1.0, 0.5, 3.0], [3.0, 1.0, -2.0, -0.25], [-0.25, 4.0, 1.5, -5.0], [0.5, -1.0, 2.0, 3.0]];
+
+struct FlOp<F> { name: String, /* 1: output is homogeneous of degree 1 in the control points, 0: invariant up to the sign of the scale */ homog: bool, out: Vec<F> }
+
+/// every operation of the property on the polygon `p * sc` at parameter t (real vek code on the float type F)
+fn fl_ops<K: Kind, F: Fl>(p: &Pts<F>, sc: F, t: F, with_tangent: bool) -> Vec<FlOp<F>> {
+    let (k, d) = (K::K, K::DIM);
+    let mut ps = *p;
+    for row in ps.iter_mut() { for c in row.iter_mut() { *c = *c * sc; } }
+    let cv = <K::C<F> as Cv<F>>::build(&ps);
+    let mut o: Vec<FlOp<F>> = Vec::new();
+    let mut put = |name: &str, homog: bool, out: Vec<F>| o.push(FlOp { name: name.to_string(), homog, out });
+    put("evaluate", true, cv.ev(t).to_vec());
+    put("evaluate_derivative", true, cv.de(t).to_vec());
+    let h = cv.sp(t);
+    put("split", true, [flat(&h[0].pts()), flat(&h[1].pts())].concat());
+    if with_tangent { put("normalized_tangent", false, cv.nt(t).to_vec()); }
+    put("reverse", true, cv.rev(true).ev(t).to_vec());
+    put(&format!("flip_{}", AX[d - 1]), true, cv.flip(d - 1, true).ev(t).to_vec());
+    put(if d == 2 { "into_3d" } else { "into_2d" }, true, cv.redim_ev(0, t).to_vec());
+    if k == 3 { put("into_cubic", true, cv.elev_ev(0, t).to_vec()); }
+    put(&format!("From<LineSegment{}>", d), true, <K::C<F> as Cv<F>>::from_seg(&ps[0], &ps[k - 1], 0).ev(t).to_vec());
+    put("From<Range>", true, <K::C<F> as Cv<F>>::from_seg(&ps[0], &ps[k - 1], 1).ev(t).to_vec());
+    let mut m = [[F::zero(); 4]; 4];
+    for i in 0..4 { for j in 0..4 { m[i][j] = F::of(FMAT[i][j]); } }
+    put(&format!("row_major::Mat{} *", d), true, cv.mul_lin(&m, false).ev(t).to_vec());
+    put(&format!("column_major::Mat{} *", d), true, cv.mul_lin(&m, true).ev(t).to_vec());
+    let mut ms = m; // the translation column scales with the control points
+    for i in 0..d { ms[i][d] = ms[i][d] * sc; }
+    put(&format!("row_major::Mat{} *", d + 1), true, cv.mul_hom(&ms, false).ev(t).to_vec());
+    put(&format!("column_major::Mat{} *", d + 1), true, cv.mul_hom(&ms, true).ev(t).to_vec());
+    o
+}
+
+fn float_ops<K: Kind, F: Fl>(s: &Section) {
+    let (k, d) = (K::K, K::DIM);
+    let n = k - 1;
+    let order = if s.thorough() { 3 } else { 2 };
+    s.require_classes(&["generic", "all-points-equal", "repeated-point", "collinear", "axis-aligned", "mixed-magnitude", "scale-up", "scale-down", "negative-scale",
+        "t<0", "t=0", "t-near-0", "t-interior", "t-near-1", "t=1", "t>1", "tangent-decided"]);
+    // ---- polygons: (class, short mantissas => exact reference available, points)
+    let mut polys: Vec<(&'static str, bool, Pts<f64>)> = Vec::new();
+    lattice(k * d, order, |a| { let mut p = [[0f64; 3]; 4]; for i in 0..k { for c in 0..d { p[i][c] = FBASE[i][c] + FPERT[a[i * d + c] as usize]; } } polys.push(("generic", true, p)); });
+    let mk = |f: &dyn Fn(usize, usize) -> f64| -> Pts<f64> { let mut p = [[0f64; 3]; 4]; for i in 0..k { for c in 0..d { p[i][c] = f(i, c); } } p };
+    polys.push(("all-points-equal", true, mk(&|_, c| [2.5, -1.0, 3.0][c])));
+    polys.push(("repeated-point", true, mk(&|i, c| FBASE[if i == 1 { 0 } else { i }][c])));
+    polys.push(("repeated-point", true, mk(&|i, c| FBASE[if i == k - 1 { 0 } else { i }][c]))); // closed curve: end == start
+    polys.push(("collinear", true, mk(&|i, c| [1.0, -2.0, 0.5][c] + (i * i) as f64 * [3.0, 1.5, -2.0][c]))); // unevenly spaced on a line
+    polys.push(("axis-aligned", true, mk(&|i, c| if c == d - 1 { [3.0, -1.0, 4.0, -6.0][i] } else { 2.0 })));
+    polys.push(("mixed-magnitude", false, mk(&|i, c| [[1048577.0, 0.1, -3.0], [0.1, -1048577.0, 0.7], [3.0, 0.3, 1048577.0], [-0.7, 5.0, 0.1]][i][c])));
+    polys.push(("mixed-magnitude", false, mk(&|i, c| [[0.1, 4194305.0, 0.3], [-2097153.0, 0.7, 0.1], [0.3, -0.1, 0.7], [1.0, 0.3, -8388609.0]][i][c])));
+    let two = |e: i32| -> F { F::of(2f64.powi(e)) };
+    let mut scales: Vec<(&'static str, F)> = vec![("scale-up", two(F::BIG)), ("scale-down", -two(-F::BIG))];
+    if s.thorough() { scales.extend([("scale-up", -two(F::BIG)), ("scale-down", two(-F::BIG)), ("scale-up", two(F::BIG / 2)), ("scale-down", -two(-F::BIG / 2)), ("scale-up", F::of(-3.0)), ("scale-down", F::of(0.625))]); }
+    // NB: -3 and 0.625 are not powers of two: the scaling law is not exact there, those two only feed the exactness assertions
+    let site = |op: &str| format!("{}::{}<{}>", K::NAME, op, F::NAME);
+    let f64s = |v: &[F]| -> Vec<f64> { v.iter().map(|&c| c.into()).collect() };
+    let tclass = |t: f64| if t < 0.0 { "t<0" } else if t == 0.0 { "t=0" } else if t < 0.001 { "t-near-0" } else if t > 1.0 { "t>1" } else if t == 1.0 { "t=1" } else if t > 0.999 { "t-near-1" } else { "t-interior" };
+    let mut worst = 0f64; // largest observed |error| / (eps * scale) over all forward-error assertions
+    let epsf: f64 = if F::NAME == "f32" { f32::EPSILON as f64 } else { f64::EPSILON };
+    for (pclass, short, p64) in polys.iter() {
+        s.class(pclass);
+        let mut pf = [[F::zero(); 3]; 4];
+        for i in 0..4 { for c in 0..3 { pf[i][c] = F::of(p64[i][c]); } }
+        let pv: Pts<f64> = pf.map(|r| r.map(|c| c.into())); // the values the float code really sees
+        let jp = || json!((0..k).map(|i| pv[i][..d].to_vec()).collect::<Vec<_>>());
+        let maxabs = pv.iter().flatten().fold(0f64, |m, c| m.max(c.abs()));
+        // ---- exactness (all scales, one included): evaluate(0) = start, evaluate(1) = end; halves keep the outer ends and share the inner one
+        let mut all_scales: Vec<(&'static str, F)> = vec![("unit", F::one())];
+        all_scales.extend(scales.iter().copied());
+        for (scn, sc) in all_scales.iter() {
+            if *scn != "unit" { s.class(scn); if *sc < F::zero() { s.class("negative-scale"); } }
+            let mut ps = pf;
+            for row in ps.iter_mut() { for c in row.iter_mut() { *c = *c * *sc; } }
+            let inp = |t: f64| json!({"P": jp(), "control_points_multiplied_by": Into::<f64>::into(*sc), "t": t});
+            let Some((e0, e1)) = s.call(&site("evaluate"), || inp(0.0), || { let c = <K::C<F> as Cv<F>>::build(&ps); (c.ev(F::zero()), c.ev(F::one())) }) else { continue };
+            s.evals(2, if *pclass == "all-points-equal" { 0 } else { 2 });
+            if e0 != ps[0] { s.violation(&site("evaluate"), "start-not-at-0", json!({"input": inp(0.0), "got": f64s(&e0), "want": f64s(&ps[0])})); }
+            if e1 != ps[k - 1] { s.violation(&site("evaluate"), "end-not-at-1", json!({"input": inp(1.0), "got": f64s(&e1), "want": f64s(&ps[k - 1])})); }
+            for &t in FT.iter() {
+                let Some(h) = s.call(&site("split"), || inp(t), || <K::C<F> as Cv<F>>::build(&ps).sp(F::of(t))) else { continue };
+                s.eval(t != 0.0 && t != 1.0);
+                let (a, b) = (h[0].pts(), h[1].pts());
+                if a[0] != ps[0] || b[k - 1] != ps[k - 1] { s.violation(&site("split"), "outer-end-moved", json!({"input": inp(t), "first": f64s(&flat(&a)), "second": f64s(&flat(&b))})); }
+                if a[k - 1] != b[0] { s.violation(&site("split"), "halves-do-not-meet", json!({"input": inp(t), "first.end": f64s(&a[k - 1]), "second.start": f64s(&b[0])})); }
+            }
+        }
+        for &t64 in FT.iter() {
+            let t = F::of(t64);
+            s.class(tclass(t64));
+            // ---- exact reference (only for polygons with short mantissas): derivative first, it decides whether the tangent is asserted
+            let xr = |v: f64| X::R(vx::fl::qf(v));
+            let px: Pts<X> = pv.map(|r| r.map(xr));
+            let tx = xr(t64);
+            let w = t64.abs() + (1.0 - t64).abs(); // sum_i |Bernstein weight_i(t)| = w^n
+            let s_ev = maxabs * w.powi(n as i32);
+            let s_de = 2.0 * n as f64 * maxabs * w.powi(n as i32 - 1);
+            let dref: Option<[f64; 3]> = if *short { catch(|| dbern(&px, k, tx).map(|c| c.rat().to_f64())).ok() } else { None };
+            let inp = || json!({"P": jp(), "t": t64});
+            let Some(base) = s.call(&site("evaluate"), inp, || fl_ops::<K, F>(&pf, F::one(), t, true)) else { continue };
+            let get = |ops: &[FlOp<F>], name: &str| -> Vec<F> { ops.iter().find(|o| o.name == name).map(|o| o.out.clone()).unwrap_or_default() };
+            // tangent asserted only where it is well conditioned: every component of the derivative (exact and float) is zero or
+            // at least 2^-10 of the derivative's forward-error scale (so neither a cancellation residue nor its square can
+            // reach the subnormal range at the extreme scales)
+            let de_f = f64s(&get(&base, "evaluate_derivative"));
+            let tangent_ok = dref.map_or(false, |dr| dr.iter().any(|c| *c != 0.0) && dr.iter().chain(de_f.iter()).all(|c| *c == 0.0 || c.abs() >= s_de / 1024.0));
+            // ---- scaling law: op(P * 2^e, t) == op(P, t) * 2^e exactly (the tangent: unchanged up to the sign of the scale)
+            for (_, sc) in scales.iter() {
+                let scf: f64 = (*sc).into();
+                if scf.abs().log2().fract() != 0.0 { continue; }
+                let inps = || json!({"P": jp(), "t": t64, "control_points_multiplied_by": scf});
+                let Some(scaled) = s.call(&site("evaluate"), inps, || fl_ops::<K, F>(&pf, *sc, t, true)) else { continue };
+                for (b, g) in base.iter().zip(scaled.iter()) {
+                    if b.name == "normalized_tangent" && !tangent_ok { continue; }
+                    s.eval(*pclass != "all-points-equal");
+                    let want: Vec<F> = b.out.iter().map(|&c| if b.homog { c * *sc } else if *sc < F::zero() { -c } else { c }).collect();
+                    if g.out != want { s.violation(&site(&b.name), "scale-dependent", json!({"input": inps(), "got": f64s(&g.out), "want (unit-scale result times the scale)": f64s(&want)})); }
+                }
+            }
+            if !*short { continue; }
+            // ---- forward error against the exact rational value of the same float inputs: |err| <= 256 eps * (sum of |terms|)
+            let mut cmp = |op: &str, got: &[F], want: &dyn Fn() -> Vec<X>, scale: f64, detail: &dyn Fn() -> Value| {
+                let Ok(wx) = catch(want) else { s.class("reference-unmodelled"); return };
+                s.eval(true);
+                for (g, wq) in got.iter().zip(wx.iter()) {
+                    let wf = wq.rat().to_f64();
+                    let gf: f64 = (*g).into();
+                    if scale > 0.0 { worst = worst.max((gf - wf).abs() / (epsf * scale)); }
+                    if !F::close(*g, wf, scale) { s.violation(&site(op), "float-error", json!({"input": detail(), "got": f64s(got), "want": wx.iter().map(|c| c.rat().to_f64()).collect::<Vec<_>>(), "scale": scale})); break; }
+                }
+            };
+            cmp("evaluate", &get(&base, "evaluate"), &|| bern(&px, k, tx).to_vec(), s_ev, &inp);
+            cmp("evaluate_derivative", &get(&base, "evaluate_derivative"), &|| dbern(&px, k, tx).to_vec(), s_de, &inp);
+            cmp("reverse", &get(&base, "reverse"), &|| bern(&px, k, qi(1) - tx).to_vec(), s_ev, &inp);
+            let lastflip = format!("flip_{}", AX[d - 1]);
+            cmp(&lastflip, &get(&base, &lastflip), &|| { let mut b = bern(&px, k, tx); b[d - 1] = -b[d - 1]; b.to_vec() }, s_ev, &inp);
+            let redim = if d == 2 { "into_3d" } else { "into_2d" };
+            cmp(redim, &get(&base, redim), &|| { let b = bern(&px, k, tx); vec![b[0], b[1], X::zero()] }, s_ev, &inp);
+            if k == 3 { cmp("into_cubic", &get(&base, "into_cubic"), &|| bern(&px, 3, tx).to_vec(), maxabs * w.powi(3), &inp); }
+            for nm in [format!("From<LineSegment{}>", d), "From<Range>".to_string()] {
+                cmp(&nm, &get(&base, &nm), &|| (0..3).map(|c| px[0][c] * (qi(1) - tx) + px[k - 1][c] * tx).collect(), maxabs * w.powi(n as i32), &inp);
+            }
+            let mx: M4<X> = FMAT.map(|r| r.map(xr));
+            for (lay, hom) in [("row_major", false), ("column_major", false), ("row_major", true), ("column_major", true)] {
+                let nm = format!("{}::Mat{} *", lay, d + hom as usize);
+                let rows = (0..d).map(|i| (0..d).map(|j| FMAT[i][j].abs()).sum::<f64>() + if hom { FMAT[i][d].abs() } else { 0.0 }).fold(0f64, f64::max);
+                cmp(&nm, &get(&base, &nm), &|| { let b = bern(&px, k, tx); let mut o = zp::<X>(); for i in 0..d { for j in 0..d { o[i] = o[i] + mx[i][j] * b[j]; } if hom { o[i] = o[i] + mx[i][d]; } } o.to_vec() },
+                    rows * maxabs.max(1.0) * w.powi(n as i32), &inp);
+            }
+            // split: both halves evaluated at every u of FU against B(t*u) resp. B(t + (1-t)u); inner end against B(t)
+            if let Some(h) = s.call(&site("split"), inp, || <K::C<F> as Cv<F>>::build(&pf).sp(t)) {
+                cmp("split", &h[0].pts()[k - 1], &|| bern(&px, k, tx).to_vec(), s_ev, &inp);
+                for (hi, half) in h.iter().enumerate() {
+                    for &u64_ in FU.iter() {
+                        let (u, ux) = (F::of(u64_), xr(u64_));
+                        let wu = u64_.abs() + (1.0 - u64_).abs();
+                        let inpu = || json!({"P": jp(), "t": t64, "half": hi, "u": u64_});
+                        let Some(got) = s.call(&site("split"), inpu, || half.ev(u)) else { continue };
+                        cmp("split", &got, &|| bern(&px, k, if hi == 0 { tx * ux } else { tx + (qi(1) - tx) * ux }).to_vec(), s_ev * wu.powi(n as i32), &inpu);
+                    }
+                }
+            }
+            // unit tangent: direction of the exact derivative, within 256 eps * (condition of the normalisation)
+            if let (true, Some(dr)) = (tangent_ok, dref) {
+                s.class("tangent-decided");
+                let nrm = (dr[0] * dr[0] + dr[1] * dr[1] + dr[2] * dr[2]).sqrt();
+                let got = get(&base, "normalized_tangent");
+                s.eval(true);
+                for c in 0..3 {
+                    if !F::close(got[c], dr[c] / nrm, s_de / nrm + 1.0) { s.violation(&site("normalized_tangent"), "not-unit-derivative", json!({"input": inp(), "got": f64s(&got), "exact derivative": dr, "norm": nrm})); break; }
+                }
+            }
+        }
+    }
+    s.meta("polygons", json!(polys.len()));
+    s.meta("scales", json!(scales.iter().map(|(_, c)| Into::<f64>::into(*c)).collect::<Vec<_>>()));
+    s.meta("parameters_t", json!(FT));
+    s.meta("parameters_u", json!(FU));
+    s.meta("worst_forward_error_in_units_of_eps_times_scale (bound 256)", json!(worst));
+}
+
+// ---- unit circle: certificate for ALL real t in [0,1] (Bernstein enclosure, exact integers) ---------
+/// r(t)^2 = x(t)^2 + y(t)^2 is a polynomial of degree 6.  Its Bernstein coefficients on an interval enclose its range there
+/// (convex hull property); intervals are bisected (de Casteljau, exact integer arithmetic) until every coefficient lies in
+/// [(1-TOL+delta)^2, (1+TOL-delta)^2], an end-point value (= a true curve point) leaves that band (violation with witness), or
+/// depth 12 is reached (violation "not certified").  The control points are rounded to 20 fractional bits first; the rounded
+/// curve is within delta = sqrt(2) * 2^-21 of the real one for every t in [0,1] (a Bezier point is a convex combination of the
+/// control points), which is why the band is narrowed by delta.
+fn circle_cert<K: Kind, F: Fl>(s: &Section) {
+    const TOL: f64 = 3e-4;
+    const FB: i32 = 20;
+    const MAXD: u32 = 12;
+    s.require_classes(&["certified-leaf", "bisected"]);
+    let sq = format!("{}::unit_quarter_circle<{}>", K::NAME, F::NAME);
+    let sc = format!("{}::unit_circle<{}>", K::NAME, F::NAME);
+    let Some(quarter) = s.call(&sq, || json!("unit_quarter_circle()"), || <K::C<F> as Cv<F>>::quarter()) else { return };
+    let Some(arcs) = s.call(&sc, || json!("unit_circle()"), || <K::C<F> as Cv<F>>::circle()) else { return };
+    let delta = 2f64.sqrt() * 2f64.powi(-(FB + 1));
+    let unit = 60.0 * 2f64.powi(2 * FB);
+    let (lo, hi) = (1.0 - TOL + delta, 1.0 + TOL - delta);
+    let lo_i = (lo * lo * (1.0 + 1e-12) * unit).ceil() as i128;
+    let hi_i = (hi * hi * (1.0 - 1e-12) * unit).floor() as i128;
+    let (mut rmin, mut rmax, mut leaves, mut deepest) = (f64::MAX, 0f64, 0u64, 0u32);
+    let items: [(&str, String, K::C<F>); 5] = [(&sq, "unit_quarter_circle".into(), quarter), (&sc, "unit_circle[0]".into(), arcs[0]), (&sc, "unit_circle[1]".into(), arcs[1]), (&sc, "unit_circle[2]".into(), arcs[2]), (&sc, "unit_circle[3]".into(), arcs[3])];
+    for (site, label, cv) in items.iter() {
+        let pf = cv.pts();
+        let mut xi = [[0i128; 2]; 4];
+        let mut planar = true;
+        for i in 0..4 {
+            let z: f64 = pf[i][2].into();
+            if z != 0.0 { planar = false; }
+            for c in 0..2 { let v: f64 = pf[i][c].into(); xi[i][c] = (v * 2f64.powi(FB)).round() as i128; }
+        }
+        if !planar { s.eval(true); s.violation(site, "outside-quadrant-exact-curve", json!({"arc": label, "why": "a control point has z != 0"})); continue; }
+        // Bernstein coefficients (degree 6) of 60 * 2^40 * r^2: product formula b_k = sum_{i+j=k} C(3,i) C(3,j) / C(6,k) (x_i x_j + y_i y_j)
+        let mut h = [0i128; 7];
+        for i in 0..4 { for j in 0..4 { h[i + j] += (binom_i(3, i) * binom_i(3, j)) as i128 * (60 / binom_i(6, i + j)) as i128 * (xi[i][0] * xi[j][0] + xi[i][1] * xi[j][1]); } }
+        let mut stack: Vec<(u32, u64, [i128; 7])> = vec![(0, 0, h)];
+        while let Some((depth, idx, b)) = stack.pop() {
+            let (l, u) = (lo_i << (6 * depth), hi_i << (6 * depth));
+            let rad = |c: i128| ((c as f64) / (unit * 2f64.powi(6 * depth as i32))).sqrt();
+            let at = |end: u64| format!("{}/{}", idx + end, 1u64 << depth);
+            if b.iter().all(|&c| c >= l && c <= u) {
+                s.eval(depth > 0); s.class("certified-leaf");
+                leaves += 1; deepest = deepest.max(depth);
+                for &c in b.iter() { rmin = rmin.min(rad(c)); rmax = rmax.max(rad(c)); }
+                continue;
+            }
+            // the first and last coefficient are values of the (rounded) curve itself
+            let mut true_violation = false;
+            for (end, c) in [(0u64, b[0]), (1, b[6])] {
+                if c < l || c > u { true_violation = true; s.eval(true); s.violation(site, "radius-off-all-t-certificate", json!({"arc": label, "t": at(end), "|B(t)| of the control points rounded to 2^-20": rad(c), "allowed": [lo, hi], "rounding_allowance": delta})); }
+            }
+            if true_violation { continue; }
+            if depth == MAXD { s.eval(true); s.violation(site, "radius-not-certified", json!({"arc": label, "t interval": [at(0), at(1)], "coefficient radii": b.iter().map(|&c| rad(c)).collect::<Vec<_>>(), "allowed": [lo, hi]})); continue; }
+            // bisect: c^r_i = c^(r-1)_i + c^(r-1)_(i+1) (= 2^r times the de Casteljau point); both halves rescaled by 2^6
+            s.class("bisected");
+            let mut tri = vec![b.to_vec()];
+            for r in 1..7 { let prev = &tri[r - 1]; tri.push((0..7 - r).map(|i| prev[i] + prev[i + 1]).collect()); }
+            let (mut left, mut right) = ([0i128; 7], [0i128; 7]);
+            for r in 0..7 { left[r] = tri[r][0] << (6 - r); right[r] = tri[6 - r][r] << r; }
+            stack.push((depth + 1, idx * 2 + 1, right));
+            stack.push((depth + 1, idx * 2, left));
+        }
+    }
+    s.meta("tolerance", json!(TOL));
+    s.meta("rounding_allowance_delta", json!(delta));
+    s.meta("certified_leaves", json!(leaves));
+    s.meta("deepest_leaf", json!(deepest));
+    s.meta("enclosure_of_|B(t)|_over_all_t (rounded curve; add +-delta)", json!([rmin, rmax]));
+}
+
 // ---- sections per curve type -----------------------------------------------------------------------
 const LAT: &str = "all points of the simplex lattice L(n, D): n = free scalars (control coordinates = lattice value a, matrix entries = a, parameters t,u = (a-1)/2), D = max(measured Deg-degree of real code and reference, hand degree) + headroom within a point budget (exact n, D, points, measured degree in meta); real code on exact rationals vs reference compared with ==; non-trivial: control points not all equal, t,u outside {0,1}, matrix non-zero";
 
@@ -529,8 +889,9 @@ fn kind_sections<K: Kind>(rep: &Report, degs: &DegLog) {
     sec("reverse, flips, 2D<->3D, unpacking", "reversed()/reverse(): evaluate(t) = B(1-t); flipped_*/flip_*: that coordinate of B(t) negated; into_3d/into_2d/From: (Bx, By, 0) resp. (Bx, By); into_vecK/into_tuple/into_array/From<VecK> keep the control points in order start..end", &[Id::Rev, Id::Flip, Id::Redim, Id::Unpack]);
     sec("Mat(DIM) * curve", "(M*curve).evaluate(t) = M . B(t), both layouts", &[Id::MulLin]);
     sec("Mat(DIM+1) * curve", "(M*curve).evaluate(t) = upper-left DIMxDIM block of M . B(t) + last column of M (w = 1, last coordinate dropped, no perspective divide), both layouts, all (DIM+1)^2 entries free", &[Id::MulHom]);
+    sec("call sequences", "one curve object carried through flip_x() [in place]; B * curve; reverse() [in place]; A * curve; flip_<last axis>() [in place]; then evaluate(t) and the inner ends of split(t): all equal B_R(t), R = the control polygon transformed point by point and reversed on plain arrays; A, B fixed non-symmetric non-commuting integer matrices (SEQ_A, SEQ_B), 4 forms: DIMxDIM and (DIM+1)x(DIM+1), row-major A with column-major B and vice versa", &[Id::Seq]);
     rep.section(&format!("{}: normalized_tangent", nm),
-        "all points of L(K*DIM+1, 6 quick / 8 thorough) (coordinates = a, t = (a-1)/2); decided (and counted) only where the reference derivative has a non-zero rational norm: normalized_tangent(t) == derivative/norm exactly; zero derivative (property silent) and irrational norm (not representable) are skipped and counted in meta; non-trivial: all decided cases",
+        "all points of L(K*DIM+1, 6 quick / 8 thorough) (coordinates = a, t = (a-1)/2); decided (and counted) only where the reference derivative has a non-zero rational norm: normalized_tangent(t) == derivative/norm exactly; every decided case again with the control points multiplied by 2^-54 (same tangent) and by -2^40 (negated tangent); zero derivative (property silent) and irrational norm (not representable) are skipped and counted in meta; non-trivial: all decided cases",
         true, false, |s| tangent::<K>(s));
 }
 
@@ -546,6 +907,20 @@ fn main() {
     rep.section("CubicBezier2: unit circle f32", rule_c, true, false, |s| circle::<C2, f32>(s));
     rep.section("CubicBezier3: unit circle f64", rule_c, true, false, |s| circle::<C3, f64>(s));
     rep.section("CubicBezier3: unit circle f32", rule_c, true, false, |s| circle::<C3, f32>(s));
+    let rule_f = "real code on f32/f64. Polygons: FBASE + FPERT[a] for all a in L(K*DIM, 2 quick / 3 thorough) (generic: no zero lane, negative and fractional values) plus all-points-equal, repeated point (ctrl = start; end = start), unevenly spaced collinear, axis-aligned and two mixed-magnitude polygons (2^20+1 .. 2^23+1 next to 0.1, 0.3, 0.7); parameters t in FT (11 values: -1/2, 0, 2^-20, 1/4, 3/8, 1/2, 13/16, 1-2^-20, 1, 3/2, 3), u in FU; scales 2^BIG and -2^-BIG (BIG = 40 for f32, 400 for f64; thorough adds -2^BIG, 2^-BIG, 2^+-BIG/2, -3, 0.625). Asserted: (1) exactly, at every scale: evaluate(0) == start, evaluate(1) == end, split(t)[0].start == start, split(t)[1].end == end, split(t)[0].end == split(t)[1].start; (2) scaling law, exactly, for every power-of-two scale: evaluate, evaluate_derivative, the 2K control points of split, reverse/flip/into_2d|3d/into_cubic/From<LineSegment>/From<Range>/Mat*curve followed by evaluate are multiplied by the scale (translation column scaled along), normalized_tangent is unchanged up to the sign of the scale; (3) forward error, unit scale, polygons with short mantissas: each of those results, and both halves of split(t) evaluated at every u, within 256 eps * (sum of the absolute values of the terms of the exact expression) of the exact rational value computed from the same float inputs; normalized_tangent within 256 eps * (that sum / |derivative| + 1) of derivative/|derivative|, asserted only where every derivative component is 0 or >= 2^-10 of the sum; non-trivial: polygon not all-points-equal, t outside {0,1} for split";
+    rep.section("QuadraticBezier2: float f32", rule_f, true, false, |s| float_ops::<Q2, f32>(s));
+    rep.section("QuadraticBezier2: float f64", rule_f, true, false, |s| float_ops::<Q2, f64>(s));
+    rep.section("QuadraticBezier3: float f32", rule_f, true, false, |s| float_ops::<Q3, f32>(s));
+    rep.section("QuadraticBezier3: float f64", rule_f, true, false, |s| float_ops::<Q3, f64>(s));
+    rep.section("CubicBezier2: float f32", rule_f, true, false, |s| float_ops::<C2, f32>(s));
+    rep.section("CubicBezier2: float f64", rule_f, true, false, |s| float_ops::<C2, f64>(s));
+    rep.section("CubicBezier3: float f32", rule_f, true, false, |s| float_ops::<C3, f32>(s));
+    rep.section("CubicBezier3: float f64", rule_f, true, false, |s| float_ops::<C3, f64>(s));
+    let rule_cert = "unit_quarter_circle() and the 4 arcs of unit_circle(): for ALL real t in [0,1], | |B(t)| - 1 | < 3e-4 for the exact curve of the returned control points: Bernstein-coefficient enclosure of the degree-6 polynomial |B(t)|^2 with adaptive bisection in exact integer arithmetic (control points rounded to 2^-20, band narrowed by the rounding allowance sqrt(2)*2^-21); a leaf is certified when all 7 coefficients lie in the band; an end-point coefficient outside the band is a witness; non-trivial: leaves below the root";
+    rep.section("CubicBezier2: unit circle all-t certificate f64", rule_cert, true, true, |s| circle_cert::<C2, f64>(s));
+    rep.section("CubicBezier2: unit circle all-t certificate f32", rule_cert, true, true, |s| circle_cert::<C2, f32>(s));
+    rep.section("CubicBezier3: unit circle all-t certificate f64", rule_cert, true, true, |s| circle_cert::<C3, f64>(s));
+    rep.section("CubicBezier3: unit circle all-t certificate f32", rule_cert, true, true, |s| circle_cert::<C3, f32>(s));
     rep.extra("measured_degrees", json!(*degs.lock().unwrap()));
     std::process::exit(rep.finish());
 }
